@@ -512,14 +512,14 @@ pub fn cmd_tamper(args: &[String]) {
             for byte in 0..24 { for bit in 0..8 { let mut h = header; h[byte] ^= 1 << bit; fam.push((key, h, c.clone(), ad.clone(), format!("header byte {} bit {}", byte, bit), "flip header")); } }
             for byte in 0..32 { for bit in 0..8 { let mut k = key; k[byte] ^= 1 << bit; fam.push((k, header, c.clone(), ad.clone(), format!("key byte {} bit {}", byte, bit), "flip key")); } }
             if let Some(a) = &ad { for byte in 0..a.len() { for bit in 0..8 { let mut x = a.clone(); x[byte] ^= 1 << bit; fam.push((key, header, c.clone(), Some(x), format!("AD byte {} bit {}", byte, bit), "flip AD")); } } }
-            for n in 1..=c.len().saturating_sub(ABYTES) { fam.push((key, header, c[..c.len() - n].to_vec(), ad.clone(), format!("truncated by {}", n), "truncate")); }
+            for n in 1..=c.len() { fam.push((key, header, c[..c.len() - n].to_vec(), ad.clone(), format!("truncated by {} (to {} bytes)", n, c.len() - n), "truncate")); }
             for n in 1..=40usize { let mut x = c.clone(); x.extend(rng.bytes(n)); fam.push((key, header, x, ad.clone(), format!("extended by {}", n), "extend")); }
             for (k, h, x, a, how, kind) in fam.iter() {
                 // classic pull
                 rep.evaluations += 1;
                 let mut d = fresh_pull(k, h);
                 let before = d.clone();
-                let canary: Vec<u8> = (0..x.len() - ABYTES).map(|i| 0xC5u8 ^ (i as u8)).collect();
+                let canary: Vec<u8> = (0..x.len().saturating_sub(ABYTES)).map(|i| 0xC5u8 ^ (i as u8)).collect();
                 let mut out = canary.clone();
                 let mut t = 0xEEu8;
                 let r = catch(|| cs::crypto_secretstream_xchacha20poly1305_pull(&mut d, &mut out, &mut t, x, a.as_deref()));
